@@ -80,6 +80,7 @@ type VC struct {
 	ensuresSeen map[*Clause]int
 	objModCache []objMod
 	localRefs map[string][]localRef
+	rebinding bool
 	inTypeInv bool
 	globals  []string
 	deferInfo map[*ssa.Defer]*callInfo
